@@ -52,7 +52,8 @@ Record config := {
   c_x : bool; c_r : bool;
   c_sys : N;                    (* sys_budget *)
   c_init : list N;              (* lengths of the command and initial arguments *)
-  c_replace : bool              (* -I / -i in force (after normalize_options) *)
+  c_replace : bool;             (* -I / -i in force (after normalize_options) *)
+  c_subst : N -> list N         (* -I: lengths of the command and the initial arguments once a line of the given length is put in *)
 }.
 
 (* do_xargs: the chain in the order it is built *)
@@ -101,9 +102,16 @@ Definition status_err (e : cerr) : N :=
 Record xs := { res : cres; outs : list child; log : list (list arg) }.
 Definition next_out (l : list child) : child := match l with o :: _ => o | [] => Exit 0 end.
 
+(* with -I the substituted command line is put to a fresh system limiter before it is run (9eccde5) *)
+Definition fits_system (c : config) (lens : list N) : bool :=
+  forallb (fun l => l + 1 <=? max_single_arg) lens && (fold_right (fun l s => l + 1 + 8 + s) 0 lens <=? c_sys c).
+Definition subst_fits (c : config) (b : list arg) : bool :=
+  match b with a :: _ => fits_system c (c_subst c (alen a)) | [] => true end.
+
 (* CommandBuilder::execute; inr = the run ends here with this exit status *)
 Definition exec (c : config) (st : xs) (b : list arg) : xs + (N * list (list arg)) :=
   if c_replace c && (match b with [] => true | _ => false end) then inl st   (* -I, nothing to substitute *)
+  else if c_replace c && negb (subst_fits c b) then inr (1, log st)           (* "Argument too large" *)
   else let log' := log st ++ [b] in
        match classify (next_out (outs st)) with
        | inl cr => inl {| res := combine (res st) cr; outs := tl (outs st); log := log' |}
